@@ -10,10 +10,10 @@ import (
 
 func init() {
 	register(&ruleSet{
-		id:    "C02",
-		title: "rules run in awk order",
-		run:   runC02,
-		decided: "the ordering skeleton of the schedule: rules are partitioned by kind into five lists in source order; BEGIN rules run before the file loop, END rules after it; per file, per decoded value ($file published first), per selected root in selector order: BEGINFILE rules, then the pattern rules, then ENDFILE rules; $ is bound (ruleRoot stored) before each rule evaluation with the documented cell; for an array root the pattern rules run once per element in index order with $ = the element and $index = its position, otherwise exactly once with $ = the root; within one element the rules run in list order, a body runs iff its pattern is absent or truthy, next ends the rule list for the element and exit returns success from every driver without evaluating anything further.",
+		id:         "C02",
+		title:      "rules run in awk order",
+		run:        runC02,
+		decided:    "the ordering skeleton of the schedule: rules are partitioned by kind into five lists in source order; BEGIN rules run before the file loop, END rules after it; per file, per decoded value ($file published first), per selected root in selector order: BEGINFILE rules, then the pattern rules, then ENDFILE rules; $ is bound (ruleRoot stored) before each rule evaluation with the documented cell; for an array root the pattern rules run once per element in index order with $ = the element and $index = its position, otherwise exactly once with $ = the root; within one element the rules run in list order, a body runs iff its pattern is absent or truthy, next ends the rule list for the element and exit returns success from every driver without evaluating anything further.",
 		notDecided: "multiplicities for concrete inputs (they follow from Go's range semantics and encoding/json, trusted) and the interaction with user programs.",
 	})
 }
@@ -67,7 +67,7 @@ func c02R1(c *Ctx) {
 		okOrder := false
 		for _, ret := range returnsOf(pa) {
 			r = p.Render(effectiveResults(ret)[0])
-			if strings.Contains(r, "Rules: φrules⟨") && strings.Contains(r, "append(φrules, [(*lang.Parser).parseRule(p)#0][:])") {
+			if strings.Contains(r, "Rules: φslice⟨") && strings.Contains(r, "append(φslice, [(*lang.Parser).parseRule(p)#0][:])") {
 				okOrder = true
 			}
 		}
@@ -183,7 +183,9 @@ func c02R2(c *Ctx) {
 		{"BEGIN", lb, freshNull, "a fresh null cell"},
 		{"END", le, freshNull, "a fresh null cell"},
 		{"BEGINFILE", lbf, func(s string) bool { return rootElem != "" && s == rootElem }, "the selected root cell itself"},
-		{"ENDFILE", lef, func(s string) bool { return strings.HasPrefix(s, "&lang.Cell{Value: ") && strings.HasSuffix(s, ".Value}") && strings.Contains(s, "[i@") }, "a fresh cell holding the root's value"},
+		{"ENDFILE", lef, func(s string) bool {
+			return strings.HasPrefix(s, "&lang.Cell{Value: ") && strings.HasSuffix(s, ".Value}") && strings.Contains(s, "[i@")
+		}, "a fresh cell holding the root's value"},
 	}
 	for _, d := range drvs {
 		var body *ssa.Call
